@@ -220,4 +220,64 @@ static int spec_named_escape(int f)
 	}
 }
 static int spec_hexval(unsigned char c) { return c <= '9' ? c - '0' : (c | 0x20) - 'a' + 10; }
+/* reference scanner for the text after an opening double quote: longest match per token, decode by form.
+ * returns 1 iff the text is exactly one string literal body closed by its quote at the very end; env: ghost "substituted" flag */
+static int spec_decode_dq(const unsigned char *t, unsigned n, unsigned char *out, unsigned *outn, int *substituted)
+{
+	unsigned pos = 0; *outn = 0; *substituted = 0;
+	while (pos < n) {
+		int s = LD_START, form = F_NONE; unsigned len = 0, i = pos;
+		while (i < n) {
+			s = spec_lex_step(s, t[i]);
+			if (s == LS_DEAD) break;
+			i++;
+			if (spec_lex_accept(s) != F_NONE) { form = spec_lex_accept(s); len = i - pos; }
+		}
+		if (form == F_NONE) return 0;
+		switch (form) {
+		case F_D_CLOSE: return pos + len == n;
+		case F_D_CHAR: out[(*outn)++] = t[pos]; break;
+		case F_D_ESC_OTHER: out[(*outn)++] = t[pos + 1]; break;
+		case F_D_NEWLINE: out[(*outn)++] = '\n'; break;
+		case F_D_CONTINUATION: break;
+		case F_D_LONE_BACKSLASH: out[(*outn)++] = '\\'; break;
+		case F_D_OCTAL: { unsigned v = 0; for (unsigned k = 1; k < len; k++) v = v * 8 + (unsigned)(t[pos + k] - '0'); if (v > 0xFF) return 0; out[(*outn)++] = (unsigned char)v; break; }
+		case F_D_HEX: { unsigned v = 0; for (unsigned k = 2; k < len; k++) v = v * 16 + (unsigned)spec_hexval(t[pos + k]); out[(*outn)++] = (unsigned char)v; break; }
+		case F_D_BADNUM: return 0;
+		case F_D_ENV: *substituted = 1; break;       /* replaced by an environment value: not the literal bytes */
+		default:
+			if (spec_named_escape(form) >= 0) { out[(*outn)++] = (unsigned char)spec_named_escape(form); break; }
+			return 0;
+		}
+		pos += len;
+	}
+	return 0;      /* no closing quote */
+}
+
+/* the same for the text after an opening single quote: only \' and \\ are unescaped, backslash-newline joins lines */
+static int spec_decode_sq(const unsigned char *t, unsigned n, unsigned char *out, unsigned *outn)
+{
+	unsigned pos = 0; *outn = 0;
+	while (pos < n) {
+		int s = LQ_START, form = F_NONE; unsigned len = 0, i = pos;
+		while (i < n) {
+			s = spec_lex_step(s, t[i]);
+			if (s == LS_DEAD) break;
+			i++;
+			if (spec_lex_accept(s) != F_NONE) { form = spec_lex_accept(s); len = i - pos; }
+		}
+		switch (form) {
+		case F_S_CLOSE: return pos + len == n;
+		case F_S_NEWLINE: out[(*outn)++] = '\n'; break;
+		case F_S_CONTINUATION: break;
+		case F_S_ESC_QUOTE_OR_BACKSLASH: out[(*outn)++] = t[pos + 1]; break;
+		case F_S_ESC_KEPT: out[(*outn)++] = t[pos]; out[(*outn)++] = t[pos + 1]; break;
+		case F_S_LONE_BACKSLASH: out[(*outn)++] = '\\'; break;
+		case F_S_RUN: for (unsigned k = 0; k < len; k++) out[(*outn)++] = t[pos + k]; break;
+		default: return 0;
+		}
+		pos += len;
+	}
+	return 0;
+}
 #endif
